@@ -518,6 +518,10 @@ func randRawQuery(r *rand.Rand, key string) string {
 		if r.Intn(2) == 0 {
 			k = key
 		}
+		if r.Intn(10) == 0 {
+			// spellings of the SAME name other frameworks would accept as it (they are other names here)
+			k = []string{key + "[]", key + "[0]", strings.ToUpper(key), " " + key, key + " ", key + "."}[r.Intn(6)]
+		}
 		v := randValue(r)
 		var p string
 		switch c := r.Intn(12); {
